@@ -37,6 +37,7 @@ def units(tier, seed):
         {"sid": "table", "family": "table", "size": 12 if q else 16, "donor": ("table", 12 if q else 14)},
         {"sid": "struct", "family": "struct", "size": 6 if q else 7, "donor": ("struct", 6 if q else 7)},
         {"sid": "topmarks", "family": "topmarks", "size": 5 if q else 6, "donor": ("topmarks", 3 if q else 5)},
+        {"sid": "basic", "family": "links", "size": 5 if q else 6, "donor": ("links", 4)},
     ]
     extra = [
         {"sid": "list", "family": "lists_q", "size": 10 if q else 12, "donor": ("lists_q", 8 if q else 10)},
